@@ -196,23 +196,55 @@ Inductive fkind := FPlain | FCoroutine | FGenerator | FAsyncGenerator.
 Definition is_genfn (k : fkind) : bool := match k with FGenerator => true | _ => false end.
 Definition is_asyncgenfn (k : fkind) : bool := match k with FAsyncGenerator => true | _ => false end.
 
-Inductive gcond := CIsGenFn | CIsAsyncGenFn | CNot (c : gcond).
-Inductive gstmt := GIf (c : gcond) (body : gblock) | GRaise (c : exn)
+(* The circumstances of a decoration: what kind of `def` is decorated, the state of the global switch
+   (pedantic.env_var_logic.is_enabled(): ENABLE_PEDANTIC unset or "1") and whether the interpreter strips
+   assert statements (python -O / -OO / PYTHONOPTIMIZE).  The property text makes no exception for either,
+   so the theorems quantify over all of them. *)
+Record dctx := mkDctx { dc_kind : fkind; dc_enabled : bool; dc_optimize : bool }.
+
+Inductive gcond :=
+| CIsGenFn | CIsAsyncGenFn
+| CIsEnabled                        (* is_enabled() *)
+| CNot (c : gcond) | CAnd (a b : gcond) | COr (a b : gcond).
+
+(* a `return` before the wrapper is defined: the decorated function without the safety wrapper *)
+Inductive early_ret :=
+| EarlyContextmanagerF              (* return contextmanager(f) *)
+| EarlyAsyncContextmanagerF         (* return asynccontextmanager(f) *)
+| EarlyBareF.                       (* return f *)
+
+Inductive gstmt :=
+| GIf (c : gcond) (body : gblock)
+| GRaise (c : exn)
+| GAssert (c : gcond)               (* assert c, msg: nothing at all under -O *)
+| GReturn (r : early_ret)
 with gblock := GNil | GCons (s : gstmt) (b : gblock).
 
-Fixpoint gcond_eval (c : gcond) (k : fkind) : bool :=
-  match c with CIsGenFn => is_genfn k | CIsAsyncGenFn => is_asyncgenfn k | CNot c' => negb (gcond_eval c' k) end.
+Fixpoint gcond_eval (c : gcond) (x : dctx) : bool :=
+  match c with
+  | CIsGenFn => is_genfn (dc_kind x)
+  | CIsAsyncGenFn => is_asyncgenfn (dc_kind x)
+  | CIsEnabled => dc_enabled x
+  | CNot c' => negb (gcond_eval c' x)
+  | CAnd a b => gcond_eval a x && gcond_eval b x
+  | COr a b => gcond_eval a x || gcond_eval b x
+  end.
 
-(* None: falls through (decoration proceeds); Some c: raises an instance of c *)
-Fixpoint grun (s : gstmt) (k : fkind) : option exn :=
+(* GFall: falls through - the wrapper is defined and `d_ret` is returned (the safe path);
+   GRaised c: raises an instance of c; GReturned r: leaves early with r *)
+Inductive gres := GFall | GRaised (c : exn) | GReturned (r : early_ret).
+
+Fixpoint grun (s : gstmt) (x : dctx) : gres :=
   match s with
-  | GRaise c => Some c
-  | GIf c b => if gcond_eval c k then grun_block b k else None
+  | GRaise c => GRaised c
+  | GAssert c => if dc_optimize x then GFall else if gcond_eval c x then GFall else GRaised AssertionErrorC
+  | GReturn r => GReturned r
+  | GIf c b => if gcond_eval c x then grun_block b x else GFall
   end
-with grun_block (b : gblock) (k : fkind) : option exn :=
+with grun_block (b : gblock) (x : dctx) : gres :=
   match b with
-  | GNil => None
-  | GCons s b' => match grun s k with Some c => Some c | None => grun_block b' k end
+  | GNil => GFall
+  | GCons s b' => match grun s x with GFall => grun_block b' x | r => r end
   end.
 
 (* what `return <expr>` of the decorator hands back *)
